@@ -138,6 +138,13 @@ def GetParams(s):
                          "  Item[" + str(i-1) +"] :" + str(items[i-1]) + "\n" +
                          "  Item[" + str(i) +"] :" + str(items[i]) ))
 
+  # a keyword may be given only once, as in a Python call
+  keywords = [i[0] for i in items if len(i) == 2]
+  for k in keywords:
+    if keywords.count(k) > 1:
+      raise SyntaxError("keyword argument repeated: " + k + " \n" +
+                        "  parsing string " + s)
+
   return args, kwargs
 
 
